@@ -164,7 +164,10 @@ fn moon_line(mo: &LunarMonth) -> String {
   let yy = (m_tt - J2000) / 365.2425 + 2000.0;
   let m_ut8 = m_tt - espenak_dt(yy) / 86400.0 + 1.0 / 3.0;
   let me_ut = ((m_ut8 - (precise + J2000)).abs() * 86400.0).round().min(2.0e9) as i64;
-  Ev::new("sq").i("s", 0).i("y", y).i("m", m).i("f", f).i("pj", pj).i("ps", ps).i("fe", fe).i("rs", rs).i("mtt", me_tt).i("mut", me_ut).done()
+  // the lunation number of the previous month, from its own first day: every lunation starts exactly one month
+  let lun = |f: i64| ((f as f64 - 2451550.09766 + 0.5) / 29.530588861).round() as i64;
+  let pkm = catch_iso(|| mo.next(-1)).and_then(|p| catch_iso(|| jdn_of(p.get_first_julian_day().get_day()).0)).map(lun).unwrap_or(-999999);
+  Ev::new("sq").i("km", lun(f)).i("pkm", pkm).i("s", 0).i("y", y).i("m", m).i("f", f).i("pj", pj).i("ps", ps).i("fe", fe).i("rs", rs).i("mtt", me_tt).i("mut", me_ut).done()
 }
 
 pub fn run(ctx: &Ctx) -> usize {
